@@ -112,13 +112,18 @@ Definition jumbo_step (st : jstate) (fr : ipfrag) : jstate * option (Z * bytes) 
         end
   end.
 
-(* InputPcapJumbo::recvPacket for one record *)
+(* InputPcapJumbo::recvPacket for one record: the VLAN tag is skipped, the reassembled datagram is
+   stripped of the user and tail layers like on the other inputs *)
 Definition jumbo_extract (c : incfg) (st : jstate) (f : pframe) : jstate * option bytes :=
   if negb (bpf_udp (i_vlan c) None (pf_data f)) then (st, None)
   else
-    let '(st', o) := jumbo_step st (parse_frag (pf_data f)) in
+    let sh := if i_vlan c then g_VLAN_HDR_LEN else 0 in
+    let '(st', o) := jumbo_step st (parse_frag (skipn (Z.to_nat sh) (pf_data f))) in
     match o with
-    | Some (port, payload) => if (port =? i_msop_port c) || (port =? i_difop_port c) then (st', Some payload) else (st', None)
+    | Some (port, payload) =>
+        if ((port =? i_msop_port c) || (port =? i_difop_port c)) && (i_user c + i_tail c <? blen payload)
+        then (st', Some (slice payload (i_user c) (blen payload - i_user c - i_tail c)))
+        else (st', None)
     | None => (st', None)
     end.
 
